@@ -265,6 +265,20 @@ def canonical_adt_names(d):
             rivals = [x for x in extra if x != e and x.rsplit("::", 1)[0] == mod and _adt_type_shape(have[x]) == _adt_type_shape(have[e])]
         if len(cands) == 1 and not rivals and cands[0].rsplit("::", 1)[1] not in names_in_use:
             out[strip(e)] = strip(cands[0])
+    # moved *and* renamed (a private state struct put into a file of its own under a new name): the field types still identify it when
+    # exactly one unknown private type of the crate and exactly one missing private table type share them
+    taken_new = {"proguard::" + k_ for k_ in out}
+    taken_old = {"proguard::" + v_ for v_ in out.values()}
+    rest_extra = [e for e in extra if e not in taken_new]
+    rest_missing = [m for m in missing if m not in taken_old and table[m].get("private", True)]
+    for e in rest_extra:
+        ts_ = json.loads(json.dumps(_adt_type_shape(have[e])))
+        if not any(v_[1] for v_ in ts_[1]):
+            continue
+        cands = [m for m in rest_missing if table[m].get("types") == ts_]
+        rivals = [x for x in rest_extra if x != e and _adt_type_shape(have[x]) == _adt_type_shape(have[e])]
+        if len(cands) == 1 and not rivals and cands[0].rsplit("::", 1)[1] not in names_in_use:
+            out[strip(e)] = strip(cands[0])
     return out
 
 
